@@ -260,7 +260,8 @@ func (e *c10Env) qcVars(full bool) []qcVar {
 					continue
 				}
 				known := h.name == "known" || h.name == "long" // only the first 32 bytes of a hash field are used
-				valid := (h.name == "genesis") || (known && (s.name == "quorum" || s.name == "bls-quorum") && v == uint64(e.bK.View()))
+				// (the signature-less certificate of the genesis block stands for view 0 only)
+				valid := (h.name == "genesis" && v == 0) || (known && (s.name == "quorum" || s.name == "bls-quorum") && v == uint64(e.bK.View()))
 				out = append(out, qcVar{fmt.Sprintf("QC{hash=%s sig=%s view=%d}", h.name, s.name, v), &hotstuffpb.QuorumCert{Sig: s.pb, Hash: h.b, View: v}, valid || (s.valid && known)})
 			}
 		}
